@@ -19,6 +19,7 @@ import sys
 import time as real_time
 from pathlib import Path
 
+import common
 from common import Suite, Violation, err_enum, quiet, scratch_dir
 
 BATCH = 3
@@ -194,7 +195,7 @@ class QueueSuite(Suite):
             @staticmethod
             def sleep(s):
                 suite._on_sleep()
-        jq.time = _Time
+        jq.time = common.dual_time(_Time)
 
         class RecordingQueue(jq.JobQueue):
             """JobQueue itself; only remembers the instance `run_jobs` creates"""
